@@ -141,6 +141,7 @@ func runC01(c *Ctx) {
 	L.Assumes("rows are reached only through seqs/seqmap of their container (no external alias of *seq except the detached results named in the SetName rule)")
 	c.checkStaleState("stale-iteration-state", "align")
 	L.Floor("stale-iteration-state", 2, "two listed state machines of package align plus the scope line")
+	c.checkHandedOverBuffers("handed-over-buffer-fresh", "align")
 }
 
 // ---------------------------------------------------------------------------
